@@ -441,6 +441,13 @@ func (r *rewriter) post(c *astutil.Cursor) bool {
 		}
 	case *ast.CallExpr:
 		// x.memberlist.Leave(d) / x.memberlist.UpdateNode(d): wall-clock waits inside memberlist (package vml)
+		if se, ok := n.Fun.(*ast.SelectorExpr); ok && len(n.Args) == 0 && se.Sel.Name == "Shutdown" {
+			if inner, ok := se.X.(*ast.SelectorExpr); ok && inner.Sel.Name == "memberlist" {
+				r.useML = true
+				c.Replace(call(sel("vml", "Shutdown"), se.X))
+				return true
+			}
+		}
 		if se, ok := n.Fun.(*ast.SelectorExpr); ok && len(n.Args) == 1 && (se.Sel.Name == "Leave" || se.Sel.Name == "UpdateNode") {
 			if inner, ok := se.X.(*ast.SelectorExpr); ok && inner.Sel.Name == "memberlist" {
 				r.useML = true
